@@ -264,6 +264,16 @@ pub fn gen(o: &Opts, sink: &mut dyn FnMut(Vec<i64>, String)) {
         let (a, b) = if rng.chance(1, 40) { (rand_f32(&mut rng), b) } else if rng.chance(1, 40) { (a, rand_f32(&mut rng)) } else { (a, b) };
         put(vec![2, fbits(a), fbits(b), fbits(c)], sink);
     }
+    // exactly degenerate and exactly representable triangles: small integer sides over a common power of two with
+    // a + b = c or |a - b| = c (and their neighbours): every intermediate is exact, so the angle is PI or 0, never NaN
+    let ne = if t { 60_000 } else { 6_000 };
+    for _ in 0..ne {
+        let (x, y) = (1 + rng.below(1000) as i32, 1 + rng.below(1000) as i32);
+        let scale = (2.0f32).powi(rng.range(-8, 8) as i32);
+        let z = match rng.below(4) { 0 => x + y, 1 => (x - y).abs().max(1), 2 => x + y - 1, _ => (x - y).abs() + 1 };
+        let (a, b, c) = (x as f32 * scale, y as f32 * scale, z as f32 * scale);
+        put(vec![2, fbits(a), fbits(b), fbits(c)], sink);
+    }
     // near-degenerate real triangles, checked under the strict reading (kind 12, emitted last: known
     // finding K03) and the margin one (kind 2)
     let mut strict: Vec<Vec<i64>> = Vec::new();
